@@ -116,68 +116,68 @@ theorem fieldOf_eq (n : String) (m : List (String × CqlVal)) : fieldOf n m = lo
   rw [lookupLast_eq_filter]
   cases (List.filter (fun p => p.1 == n) m).getLast? <;> rfl
 
-/-! ### unfolding `specBody` along the serializer's view of the value -/
+/-! ### unfolding `layoutBody` along the serializer's view of the value -/
 
-theorem specBody_scalar (t : CqlTy) (v : CqlVal) (acc : List NativeTy) (b : Bytes) (viaB : Bool)
-    (h : viewOf v = .scalar acc b viaB) : specBody t v = match t with | .native n => specNative n v | _ => none := by
-  cases v <;> simp [viewOf] at h <;> cases t <;> simp [specBody, elemsOf, specNative]
+theorem layoutBody_scalar (t : CqlTy) (v : CqlVal) (acc : List NativeTy) (b : Bytes) (viaB : Bool)
+    (h : viewOf v = .scalar acc b viaB) : layoutBody t v = match t with | .native n => specNative n v | _ => none := by
+  cases v <;> simp [viewOf] at h <;> cases t <;> simp [layoutBody, elemsOf, specNative]
 
-theorem specBody_empty (t : CqlTy) : specBody t .empty = some [] := by simp [specBody]
+theorem layoutBody_empty (t : CqlTy) : layoutBody t .empty = some [] := by simp [layoutBody]
 
-theorem specBody_list (elt : CqlTy) (v : CqlVal) (vs : List CqlVal) (h : viewOf v = .seq vs) :
-    specBody (.list elt) v = (catOpt (fun x => specCell elt x) vs).map (fun cells => beBytes 4 vs.length ++ cells) := by
-  cases v <;> simp [viewOf] at h <;> subst h <;> simp [specBody, elemsOf]
+theorem layoutBody_list (elt : CqlTy) (v : CqlVal) (vs : List CqlVal) (h : viewOf v = .seq vs) :
+    layoutBody (.list elt) v = (catOpt (fun x => layoutCell elt x) vs).map (fun cells => beBytes 4 vs.length ++ cells) := by
+  cases v <;> simp [viewOf] at h <;> subst h <;> simp [layoutBody, elemsOf]
 
-theorem specBody_set (elt : CqlTy) (v : CqlVal) (vs : List CqlVal) (h : viewOf v = .seq vs) :
-    specBody (.set elt) v = (catOpt (fun x => specCell elt x) vs).map (fun cells => beBytes 4 vs.length ++ cells) := by
-  cases v <;> simp [viewOf] at h <;> subst h <;> simp [specBody, elemsOf]
+theorem layoutBody_set (elt : CqlTy) (v : CqlVal) (vs : List CqlVal) (h : viewOf v = .seq vs) :
+    layoutBody (.set elt) v = (catOpt (fun x => layoutCell elt x) vs).map (fun cells => beBytes 4 vs.length ++ cells) := by
+  cases v <;> simp [viewOf] at h <;> subst h <;> simp [layoutBody, elemsOf]
 
-theorem specBody_vector (elt : CqlTy) (dim : Nat) (v : CqlVal) (vs : List CqlVal) (h : viewOf v = .seq vs) :
-    specBody (.vector elt dim) v =
-      (if vs.length = dim then vectorBody (fun x => specBody elt x) (fixedWidth elt).isSome vs else none) := by
-  cases v <;> simp [viewOf] at h <;> subst h <;> simp [specBody, elemsOf]
+theorem layoutBody_vector (elt : CqlTy) (dim : Nat) (v : CqlVal) (vs : List CqlVal) (h : viewOf v = .seq vs) :
+    layoutBody (.vector elt dim) v =
+      (if vs.length = dim then vectorBody (fun x => layoutBody elt x) (fixedWidth elt).isSome vs else none) := by
+  cases v <;> simp [viewOf] at h <;> subst h <;> simp [layoutBody, elemsOf]
 
-theorem specBody_map (kt vt : CqlTy) (v : CqlVal) (kvs : List (CqlVal × CqlVal)) (h : viewOf v = .map kvs) :
-    specBody (.map kt vt) v =
-      (catOpt (pairCell (fun k => specCell kt k) (fun x => specCell vt x)) kvs).map
+theorem layoutBody_map (kt vt : CqlTy) (v : CqlVal) (kvs : List (CqlVal × CqlVal)) (h : viewOf v = .map kvs) :
+    layoutBody (.map kt vt) v =
+      (catOpt (pairCell (fun k => layoutCell kt k) (fun x => layoutCell vt x)) kvs).map
         (fun cells => beBytes 4 kvs.length ++ cells) := by
-  cases v <;> simp [viewOf] at h <;> subst h <;> simp [specBody]
+  cases v <;> simp [viewOf] at h <;> subst h <;> simp [layoutBody]
 
-theorem specBody_tuple (ts : List CqlTy) (v : CqlVal) (fs : List CqlVal) (h : viewOf v = .tuple fs) :
-    specBody (.tuple ts) v = if fs.length ≤ ts.length then specTuple ts fs else none := by
-  cases v <;> simp [viewOf] at h <;> subst h <;> simp [specBody]
+theorem layoutBody_tuple (ts : List CqlTy) (v : CqlVal) (fs : List CqlVal) (h : viewOf v = .tuple fs) :
+    layoutBody (.tuple ts) v = if fs.length ≤ ts.length then layoutTuple ts fs else none := by
+  cases v <;> simp [viewOf] at h <;> subst h <;> simp [layoutBody]
 
-theorem specBody_udt (ks name : String) (fields : List (String × CqlTy)) (v : CqlVal) (vks vname : String)
+theorem layoutBody_udt (ks name : String) (fields : List (String × CqlTy)) (v : CqlVal) (vks vname : String)
     (m : List (String × CqlVal)) (h : viewOf v = .udt vks vname m) :
-    specBody (.udt ks name fields) v = specUdt fields m := by
-  cases v <;> simp [viewOf] at h <;> obtain ⟨_, _, rfl⟩ := h <;> simp [specBody]
+    layoutBody (.udt ks name fields) v = layoutUdt fields m := by
+  cases v <;> simp [viewOf] at h <;> obtain ⟨_, _, rfl⟩ := h <;> simp [layoutBody]
 
-theorem specCell_nonnull (t : CqlTy) (v : CqlVal)
+theorem layoutCell_nonnull (t : CqlTy) (v : CqlVal)
     (hn : ∀ w, viewOf v = w → (match w with | .null => False | .unset => False | _ => True)) :
-    specCell t v = (specBody t v).map bytesOf := by
+    layoutCell t v = (layoutBody t v).map bytesOf := by
   have := hn _ rfl
-  cases v <;> simp [viewOf] at this <;> simp [specCell]
+  cases v <;> simp [viewOf] at this <;> simp [layoutCell]
 
 /-- From the content statement at `t` to the `[bytes]` statement at `t`. -/
 theorem cell_of_body (t : CqlTy)
-    (hb : ∀ v body, encSpec t v false = .ok body → body.length < 2 ^ 64 → specBody t v = some body)
-    (v : CqlVal) (cell : Bytes) (h : encSpec t v true = .ok cell) : specCell t v = some cell := by
+    (hb : ∀ v body, encSpec t v false = .ok body → body.length < 2 ^ 64 → layoutBody t v = some body)
+    (v : CqlVal) (cell : Bytes) (h : encSpec t v true = .ok cell) : layoutCell t v = some cell := by
   by_cases hnull : v = .null
   · subst hnull
     rw [encSpec] at h
     simp only [viewOf, if_true] at h
-    cases h; simp [specCell, nullBytes]
+    cases h; simp [layoutCell, nullBytes]
   by_cases hunset : v = .unset
   · subst hunset
     rw [encSpec] at h
     simp only [viewOf, if_true] at h
-    cases h; simp [specCell, unsetBytes]
+    cases h; simp [layoutCell, unsetBytes]
   have hn : ∀ w, viewOf v = w → (match w with | .null => False | .unset => False | _ => True) := by
     intro w hw; subst hw
     cases v <;> simp [viewOf] at hnull hunset ⊢
   obtain ⟨body, hbody, hlen, rfl⟩ := encSpec_cell t v cell h hn
   have hl : body.length < 2 ^ 64 := by have := i32Max_lt; omega
-  rw [specCell_nonnull t v hn, hb v body hbody hl]
+  rw [layoutCell_nonnull t v hn, hb v body hbody hl]
   rfl
 
 theorem concat_cat {α : Type} (g : α → Except SerErr Bytes) (f : α → Option Bytes) :
@@ -208,25 +208,25 @@ theorem concat_cat_len {α : Type} (g : α → Except SerErr Bytes) (f : α → 
 /-- The content statement: what `encSpec` produces without a frame is the protocol's content. -/
 def Sound (t : CqlTy) : Prop :=
   wfTy t = true → ∀ (v : CqlVal) (body : Bytes), encSpec t v false = .ok body → body.length < 2 ^ 64 →
-    specBody t v = some body
+    layoutBody t v = some body
 
 def SoundTuple (ts : List CqlTy) : Prop :=
   wfTys ts = true → ∀ (fs : List CqlVal) (cells : Bytes), encTupleSpec ts fs = .ok cells →
-    specTuple ts fs = some cells
+    layoutTuple ts fs = some cells
 
 def SoundUdt (fields : List (String × CqlTy)) : Prop :=
   wfFields fields = true → (fields.map (·.1)).Nodup →
     ∀ (m m' : List (String × CqlVal)) (cells : Bytes) (l : List (String × CqlVal)),
       (∀ f, f ∈ fields → lookupLast f.1 m' = lookupLast f.1 m) →
-      encUdtSpec fields m' = .ok (cells, l) → specUdt fields m = some cells
+      encUdtSpec fields m' = .ok (cells, l) → layoutUdt fields m = some cells
 
 theorem frame_false (b body : Bytes) (h : frame false b = .ok body) : body = b := by
   simp [frame] at h; exact h.symm
 
 theorem varElem_cat (elt : CqlTy)
-    (hb : ∀ v body, encSpec elt v false = .ok body → body.length < 2 ^ 64 → specBody elt v = some body)
+    (hb : ∀ v body, encSpec elt v false = .ok body → body.length < 2 ^ 64 → layoutBody elt v = some body)
     (x : CqlVal) (c : Bytes) (h : varElemSpec (fun v => encSpec elt v false) x = .ok c) (hl : c.length < 2 ^ 64) :
-    (specBody elt x).map (fun b => uvintSpec b.length ++ b) = some c := by
+    (layoutBody elt x).map (fun b => uvintSpec b.length ++ b) = some c := by
   obtain ⟨eb, heb, rfl⟩ := varElemSpec_ok _ x c h
   have hle : eb.length < 2 ^ 64 := by simp only [List.length_append] at hl; omega
   rw [hb x eb heb hle]
@@ -248,7 +248,7 @@ theorem sound : ∀ t : CqlTy, Sound t
       split at h
       · split at h
         · cases h
-        · simp at h; subst h; exact specBody_empty _
+        · simp at h; subst h; exact layoutBody_empty _
       · cases h
     | scalar acc b viaB =>
       rw [hv] at h
@@ -257,7 +257,7 @@ theorem sound : ∀ t : CqlTy, Sound t
       · rename_i hn
         have hb := frame_false_ok b body viaB h
         subst hb
-        rw [specBody_scalar _ v acc body viaB hv]
+        rw [layoutBody_scalar _ v acc body viaB hv]
         exact scalar_spec n v acc body viaB hv (by simpa using hn)
       · cases h
     | seq vs => rw [hv] at h; cases h
@@ -278,7 +278,7 @@ theorem sound : ∀ t : CqlTy, Sound t
       split at h
       · split at h
         · cases h
-        · simp at h; subst h; exact specBody_empty _
+        · simp at h; subst h; exact layoutBody_empty _
       · cases h
     | scalar acc b viaB => rw [hv] at h; simp [encScalarSpec] at h
     | seq vs =>
@@ -292,8 +292,8 @@ theorem sound : ∀ t : CqlTy, Sound t
           rw [hc] at h
           have := frame_false _ _ h
           subst this
-          rw [specBody_list elt v vs hv,
-            concat_cat _ (fun x => specCell elt x) vs cells
+          rw [layoutBody_list elt v vs hv,
+            concat_cat _ (fun x => layoutCell elt x) vs cells
               (fun x _ c hx => cell_of_body elt (sound elt (by simpa [wfTy] using hty)) x c hx) hc]
           rfl
     | map kvs => rw [hv] at h; cases h
@@ -313,7 +313,7 @@ theorem sound : ∀ t : CqlTy, Sound t
       split at h
       · split at h
         · cases h
-        · simp at h; subst h; exact specBody_empty _
+        · simp at h; subst h; exact layoutBody_empty _
       · cases h
     | scalar acc b viaB => rw [hv] at h; simp [encScalarSpec] at h
     | seq vs =>
@@ -327,8 +327,8 @@ theorem sound : ∀ t : CqlTy, Sound t
           rw [hc] at h
           have := frame_false _ _ h
           subst this
-          rw [specBody_set elt v vs hv,
-            concat_cat _ (fun x => specCell elt x) vs cells
+          rw [layoutBody_set elt v vs hv,
+            concat_cat _ (fun x => layoutCell elt x) vs cells
               (fun x _ c hx => cell_of_body elt (sound elt (by simpa [wfTy] using hty)) x c hx) hc]
           rfl
     | map kvs => rw [hv] at h; cases h
@@ -348,7 +348,7 @@ theorem sound : ∀ t : CqlTy, Sound t
       split at h
       · split at h
         · cases h
-        · simp at h; subst h; exact specBody_empty _
+        · simp at h; subst h; exact layoutBody_empty _
       · cases h
     | scalar acc b viaB => rw [hv] at h; simp [encScalarSpec] at h
     | map kvs =>
@@ -363,8 +363,8 @@ theorem sound : ∀ t : CqlTy, Sound t
           rw [hc] at h
           have := frame_false _ _ h
           subst this
-          rw [specBody_map kt vt v kvs hv,
-            concat_cat _ (pairCell (fun k => specCell kt k) (fun x => specCell vt x)) kvs cells
+          rw [layoutBody_map kt vt v kvs hv,
+            concat_cat _ (pairCell (fun k => layoutCell kt k) (fun x => layoutCell vt x)) kvs cells
               (fun kv _ c hx => by
                 obtain ⟨kc, vc, hk, hvv, rfl⟩ := pairSpec_ok _ _ kv c hx
                 simp only [pairCell, cell_of_body kt (sound kt hty.1) kv.1 kc hk,
@@ -387,7 +387,7 @@ theorem sound : ∀ t : CqlTy, Sound t
       split at h
       · split at h
         · cases h
-        · simp at h; subst h; exact specBody_empty _
+        · simp at h; subst h; exact layoutBody_empty _
       · cases h
     | scalar acc b viaB => rw [hv] at h; simp [encScalarSpec] at h
     | seq vs =>
@@ -398,7 +398,7 @@ theorem sound : ∀ t : CqlTy, Sound t
       · cases h
       · rename_i hlen
         have hlen' : vs.length = dim := by simpa using hlen
-        rw [specBody_vector elt dim v vs hv, if_pos hlen', fixedWidth_eq]
+        rw [layoutBody_vector elt dim v vs hv, if_pos hlen', fixedWidth_eq]
         cases hs : elt.sizeForVector with
         | some sz =>
           rw [hs] at h
@@ -410,7 +410,7 @@ theorem sound : ∀ t : CqlTy, Sound t
             have := frame_false _ _ h
             subst this
             simp only [vectorBody, Option.isSome_some, if_true]
-            exact concat_cat_len _ (fun x => specBody elt x) (2 ^ 64) vs body
+            exact concat_cat_len _ (fun x => layoutBody elt x) (2 ^ 64) vs body
               (fun x _ c hx hl => sound elt hty' x c hx hl) hc hlt
         | none =>
           rw [hs] at h
@@ -441,7 +441,7 @@ theorem sound : ∀ t : CqlTy, Sound t
       split at h
       · split at h
         · cases h
-        · simp at h; subst h; exact specBody_empty _
+        · simp at h; subst h; exact layoutBody_empty _
       · cases h
     | scalar acc b viaB => rw [hv] at h; simp [encScalarSpec] at h
     | tuple fs =>
@@ -456,7 +456,7 @@ theorem sound : ∀ t : CqlTy, Sound t
           rw [hc] at h
           have := frame_false _ _ h
           subst this
-          rw [specBody_tuple ts v fs hv, if_pos (by omega)]
+          rw [layoutBody_tuple ts v fs hv, if_pos (by omega)]
           exact soundTuple ts (by simpa [wfTy] using hty) fs body hc
     | seq vs => rw [hv] at h; cases h
     | map kvs => rw [hv] at h; cases h
@@ -475,7 +475,7 @@ theorem sound : ∀ t : CqlTy, Sound t
       split at h
       · split at h
         · cases h
-        · simp at h; subst h; exact specBody_empty _
+        · simp at h; subst h; exact layoutBody_empty _
       · cases h
     | scalar acc b viaB => rw [hv] at h; simp [encScalarSpec] at h
     | udt ks name m =>
@@ -494,18 +494,18 @@ theorem sound : ∀ t : CqlTy, Sound t
           · cases h
           · have := frame_false _ _ h
             subst this
-            rw [specBody_udt dks dname fields v ks name m hv]
+            rw [layoutBody_udt dks dname fields v ks name m hv]
             exact soundUdt fields hty.2 hty.1 m m body l (fun _ _ => rfl) hc
     | seq vs => rw [hv] at h; cases h
     | map kvs => rw [hv] at h; cases h
     | tuple fs => rw [hv] at h; cases h
 theorem soundTuple : ∀ ts : List CqlTy, SoundTuple ts
-  | [] => by intro _ fs cells h; cases fs <;> simp [encTupleSpec] at h <;> subst h <;> simp [specTuple]
+  | [] => by intro _ fs cells h; cases fs <;> simp [encTupleSpec] at h <;> subst h <;> simp [layoutTuple]
   | t :: ts => by
     intro hty fs cells h
     simp only [wfTys, Bool.and_eq_true] at hty
     cases fs with
-    | nil => simp [encTupleSpec] at h; subst h; simp [specTuple]
+    | nil => simp [encTupleSpec] at h; subst h; simp [layoutTuple]
     | cons f fs =>
       rw [encTupleSpec] at h
       cases hc : encSpec t f true with
@@ -518,9 +518,9 @@ theorem soundTuple : ∀ ts : List CqlTy, SoundTuple ts
         | ok r =>
           rw [hr] at h
           cases h
-          simp only [specTuple, cell_of_body t (sound t hty.1) f c hc, soundTuple ts hty.2 fs r hr]
+          simp only [layoutTuple, cell_of_body t (sound t hty.1) f c hc, soundTuple ts hty.2 fs r hr]
 theorem soundUdt : ∀ fields : List (String × CqlTy), SoundUdt fields
-  | [] => by intro _ _ m m' cells l _ h; simp [encUdtSpec] at h; simp [specUdt, h.1]
+  | [] => by intro _ _ m m' cells l _ h; simp [encUdtSpec] at h; simp [layoutUdt, h.1]
   | (n, t) :: rest => by
     intro hty hnd m m' cells l hag h
     simp only [wfFields, Bool.and_eq_true] at hty
@@ -541,8 +541,8 @@ theorem soundUdt : ∀ fields : List (String × CqlTy), SoundUdt fields
         rw [hr] at h
         cases h
         have hf : fieldOf n m = .null := by rw [fieldOf_eq]; simp [lookupOrNull, hl]
-        simp only [specUdt, hf, soundUdt rest hty.2 hnd.2 m m' r _ hagr hr]
-        simp [specCell, nullBytes]
+        simp only [layoutUdt, hf, soundUdt rest hty.2 hnd.2 m m' r _ hagr hr]
+        simp [layoutCell, nullBytes]
     | some v =>
       rw [hl] at h
       simp only at h
@@ -567,7 +567,7 @@ theorem soundUdt : ∀ fields : List (String × CqlTy), SoundUdt fields
             rw [lookupLast_removeName n f.1 m' hne]
             exact hagr f hf
           have hf : fieldOf n m = v := by rw [fieldOf_eq]; simp [lookupOrNull, hl]
-          simp only [specUdt, hf, cell_of_body t (sound t hty.1) v c hc,
+          simp only [layoutUdt, hf, cell_of_body t (sound t hty.1) v c hc,
             soundUdt rest hty.2 hnd.2 m (removeName n m') r _ hag' hr]
 end
 
